@@ -124,9 +124,11 @@ def validate_trace(ctx, tracefile, tag, cfg=None):
         idx, lit = payload.split(", ", 1)
         mism[int(idx)] = json.loads(lib.parse_tla_string(lit))
     skips = set(int(x) for x in r["printed"].get("SKIP", []))
+    # disagreements on behaviour the specification describes but no listed property fixes: reported, never a violation
+    beyond = set(int(x) for x in r["printed"].get("BEYOND", []))
     ctx.states += r["distinct"]
     ctx.transitions += r["states"]
-    return n, mism, skips
+    return n, mism, skips, beyond
 
 
 def split_file(path, per):
@@ -163,17 +165,20 @@ def stage_record(ctx, cfg=None, label=""):
         futs = {ex.submit(validate_trace, ctx, p, "%s.tr%s%d" % (ctx.pid, label, i), cfg): p for i, p in enumerate(parts)}
         for fu in concurrent.futures.as_completed(futs):
             p = futs[fu]
-            nrec, mism, skips = fu.result()
+            nrec, mism, skips, beyond = fu.result()
             total += nrec
             nsk += len(skips)
             lines = open(p).read().splitlines()
+            for idx in sorted(beyond):
+                rec = json.loads(lines[idx - 1])
+                ctx.beyond.append(dict(stage=label or "main", **{"in": rec["in"], "obs": rec["obs"]}))
             for idx, expected in sorted(mism.items()):
                 rec = json.loads(lines[idx - 1])
                 ctx.failures.append(dict(source="trace", vh=cfg.get("record_vh", ctx.pid), **{"in": rec["in"], "obs": rec["obs"], "exp": expected}))
             acc = ctx.accepted_records if not label else ctx.accepted_more.setdefault(label, [])
             if len(acc) < 400:
                 for i, ln in enumerate(lines[:400]):
-                    if (i + 1) not in mism and (i + 1) not in skips:
+                    if (i + 1) not in mism and (i + 1) not in skips and (i + 1) not in beyond:
                         acc.append(json.loads(ln))
             if (not ctx.trace_sampled or label) and lines and len(ctx.samples) < 4:
                 ctx.samples.append(dict(kind="recorded run (impl -> spec)", **json.loads(lines[0])))
@@ -215,19 +220,19 @@ def selftest_one(ctx, cfg, accepted_records, label):
     if rc != 0:
         raise ToolError("vh corrupt failed rc=%s\n%s" % (rc, out[-3000:]))
     save = (ctx.states, ctx.transitions)
-    nrec, mism, skips = validate_trace(ctx, tf, ctx.pid + ".self" + label, cfg)
+    nrec, mism, skips, beyond = validate_trace(ctx, tf, ctx.pid + ".self" + label, cfg)
     ctx.states, ctx.transitions = save
-    accepted = nrec - len(skips) - len(mism)
+    accepted = nrec - len(skips) - len(mism) - len(beyond)
     if label:
-        ctx.selftest_more[label.lstrip(".")] = dict(corrupted_records=nrec, rejected=len(mism))
+        ctx.selftest_more[label.lstrip(".")] = dict(corrupted_records=nrec, rejected=len(mism) + len(beyond))
     else:
-        ctx.selftest = dict(corrupted_records=nrec, rejected=len(mism))
+        ctx.selftest = dict(corrupted_records=nrec, rejected=len(mism) + len(beyond))
     if nrec == 0:
         log("self-test%s skipped: nothing corruptible" % label)
         return
     if accepted > 0:
         raise ToolError("self-test%s: %d corrupted records were ACCEPTED by the trace specification - the binding is vacuous" % (label, accepted))
-    log("self-test%s: %d corrupted records, all rejected" % (label, len(mism)))
+    log("self-test%s: %d corrupted records, all rejected" % (label, len(mism) + len(beyond)))
 
 
 class Ctx:
@@ -291,6 +296,7 @@ def check(pid, tier, seed):
     ctx.trace_sampled = False
     ctx.accepted_records = []
     ctx.accepted_more = {}
+    ctx.beyond = []
     ctx.selftest_more = {}
     ctx.selftest = None
     ctx.trace_stages = []
@@ -328,6 +334,11 @@ def check(pid, tier, seed):
                out_of_domain_skipped=ctx.skipped, tlc_runs=ctx.mc_runs, trace_stages=ctx.trace_stages, selftest=ctx.selftest, selftest_more=ctx.selftest_more, tlaps_proofs=getattr(ctx, "proofs", []),
                known_findings_hit=known, disagreements=len(ctx.failures),
                exhaustive=bool(ctx.cfg.get("exhaustive_note")), rule=ctx.cfg.get("rule", ""))
+    if ctx.beyond:
+        # the specification has grown past the listed properties; where the code disagrees with it there, that is
+        # worth knowing but it is not a violation of this property
+        cov["beyond_property_disagreements"] = dict(count=len(ctx.beyond), first=ctx.beyond[0])
+        log("NOTE: %d recorded runs disagree with the specification on behaviour no listed property fixes (see evidence)" % len(ctx.beyond))
     if getattr(ctx, "proofs", []):
         cov["obligations"] = cov["discharged"] = sum(p["obligations_proved"] for p in ctx.proofs)
     cov.update(ctx.extra)
@@ -370,7 +381,7 @@ def replay(pid, path):
     open(tf, "w").write(json.dumps({"in": case["input"], "obs": obs}) + "\n")
     ctx = Ctx()
     ctx.cfg, ctx.states, ctx.transitions = cfg, 0, 0
-    n, mism, skips = validate_trace(ctx, tf, pid + ".rp")
+    n, mism, skips, _beyond = validate_trace(ctx, tf, pid + ".rp")
     if mism:
         print("VIOLATION property=%s replay=%s" % (pid, path))
         return 1
